@@ -34,35 +34,62 @@ class Hung(Exception):
     pass
 
 
-def call_completing(ctx, fn, what, case, bound_s=3.0, hard_s=90.0):
-    """Run fn() in a helper thread. If it has not returned after bound_s, decide structurally from the helper's stack:
-    blocked inside FakeClock acquiring the clock's lock while no other thread uses the clock => self-deadlock (violation).
-    Anything else: keep waiting up to hard_s, then inconclusive."""
-    box = {}
+class Worker:
+    """A long-lived thread that executes submitted callables one at a time (operations of one history alternate between two of
+    these, so that state left behind by one thread - e.g. a lock that was never released - is met by another thread)."""
 
-    def run():
-        try:
-            box["r"] = fn()
-        except BaseException as e:  # noqa: BLE001
-            box["e"] = e
-    t = threading.Thread(target=run, daemon=True)
-    t.start(); t.join(bound_s)
+    def __init__(self):
+        import queue
+        self.q = queue.Queue()
+        self.t = threading.Thread(target=self._loop, daemon=True)
+        self.t.start()
+
+    def _loop(self):
+        while True:
+            item = self.q.get()
+            if item is None:
+                return
+            fn, box, done = item
+            try:
+                box["r"] = fn()
+            except BaseException as e:  # noqa: BLE001
+                box["e"] = e
+            done.set()
+
+    def stop(self):
+        self.q.put(None)
+
+
+_workers = []
+_turn = [0]
+
+
+def call_completing(ctx, fn, what, case, bound_s=3.0, hard_s=60.0):
+    """Run fn() on one of two long-lived worker threads (alternating). If it has not returned after bound_s, decide
+    structurally from that thread's stack: blocked inside FakeClock on a lock acquisition while no other thread is using
+    the clock => the operation can never complete (violation). Anything else: wait up to hard_s, then inconclusive."""
+    while len(_workers) < 2:
+        _workers.append(Worker())
+    _turn[0] ^= 1
+    w = _workers[_turn[0]]
+    box = {}; done = threading.Event()
+    w.q.put((fn, box, done))
     ctx.counters["completion_checks"] += 1
-    if t.is_alive():
-        fr = sys._current_frames().get(t.ident)
+    if not done.wait(bound_s):
+        fr = sys._current_frames().get(w.t.ident)
         stack = []
         while fr is not None:
             stack.append((fr.f_code.co_filename, fr.f_code.co_name, fr.f_lineno)); fr = fr.f_back
         inside = [s for s in stack if s[0].replace("\\", "/").endswith("testing/_fake_clock.py")]
+        _workers[_turn[0]] = Worker()        # the blocked thread is abandoned (daemon)
         if inside and stack[0] == inside[0]:
             import linecache
             line = linecache.getline(inside[0][0], inside[0][2]).strip()
             outer = [s[1] for s in inside]
             ctx.V(f"C19:operation-does-not-complete:{outer[-1]}", f"{what} did not return: the calling thread is blocked in FakeClock.{inside[0][1]} at '{line}' "
-                  f"(call chain {' -> '.join(reversed(outer))}) while no other thread uses the clock: self-deadlock", case, [list(s) for s in inside[:4]])
+                  f"(call chain {' -> '.join(reversed(outer))}) while no other thread is using the clock: it can never complete", case, [list(s) for s in inside[:4]])
             raise Hung()
-        t.join(hard_s)
-        if t.is_alive():
+        if not done.wait(hard_s):
             ctx.inconc(f"{what} still running after {hard_s}s outside FakeClock: {stack[:3]}")
             raise Hung()
     if "e" in box:
@@ -79,6 +106,8 @@ def run_seq(ctx, n):
     IMIN, IMAX = gen.INST_MIN_NS, gen.INST_MAX_NS
     dead = set()
     for h in range(n):
+        if ctx.counters.get("hangs", 0) >= 4:
+            ctx.note("sequential shard stopped early after four non-completing operations (each costs a watchdog wait)"); break
         now = rng.choice([rng.randint(-10**18, 10**18), IMAX - rng.randint(0, 10**12), IMIN + rng.randint(0, 10**12), 0])
         auto = rng.choice([0, 1, -1, 10**9, rng.randint(-10**12, 10**12)])
         c = FakeClock(ins(now), Duration.from_nanoseconds(auto))
@@ -119,7 +148,7 @@ def run_seq(ctx, n):
                     try:
                         call_completing(ctx, fn, name, case)
                     except Hung:
-                        dead.add(name); break
+                        dead.add(name); ctx.counters["hangs"] += 1; break
                     except (ValueError, OverflowError) as e:
                         ctx.exc(e)
                         if inr:
@@ -143,6 +172,7 @@ def run_seq(ctx, n):
                     if got != auto:
                         ctx.V("C19:auto_advance-getter", f"auto_advance = {got}, model {auto}", case, got, auto)
             except Hung:
+                ctx.counters["hangs"] += 1
                 break
         else:
             # final state: one more read with zero auto-advance tells the current value
@@ -335,6 +365,36 @@ def run_views(ctx, n):
             if got != want:
                 ctx.V("C19:zoned-clock-view", f"ZonedClock({z.id}, {cal.id}) read at {cur} ({cur - t:+d} ns from a transition, after earlier reads on the same object) reports offset "
                       f"{got[3].offset.seconds} s, local {got[2]!r}; the instant rendered in the zone has offset {want[3].offset.seconds} s, local {want[2]!r}", case)
+    # an auto-advancing wrapped clock: every ZonedClock getter is exactly ONE read of the wrapped clock, rendered in zone and calendar
+    for _ in range(max(10, n // 15)):
+        z = tz[rng.choice(["Europe/London", "America/New_York", "Australia/Lord_Howe", rng.choice(ids)])]
+        log, _p = zonewalk.walk(z, -10**18, 4 * 10**18)
+        trans = [r[0] for r in log[1:] if r[0] is not None]
+        step = rng.choice([1, 2, 30 * 60 * NS, 3600 * NS, 10**9])
+        t0 = (rng.choice(trans) - rng.randint(0, 4) * step) if trans and rng.random() < 0.7 else rng.randint(-10**18, 4 * 10**18)
+        cal = rng.choice([gen.ISO, gen.ISO, rng.choice(cals)]); lo, hi = gen.cal_range(cal.id)
+        if not (lo + 3) * DAY < t0 < (hi - 3) * DAY:
+            cal = gen.ISO
+        fc = FakeClock(gen.ns_inst(t0), Duration.from_nanoseconds(step)); zc = ZonedClock(fc, z, cal)
+        getters = [("get_current_instant", lambda e: e.to_instant()), ("get_current_zoned_date_time", lambda e: e), ("get_current_local_date_time", lambda e: e.local_date_time),
+                   ("get_current_offset_date_time", lambda e: e.to_offset_date_time()), ("get_current_date", lambda e: e.date), ("get_curent_time_of_day", lambda e: e.time_of_day)]
+        k = 0
+        for _r in range(10):
+            name, proj = rng.choice(getters)
+            cur = t0 + k * step; exp = gen.ns_inst(cur).in_zone(z, cal)
+            case = {"kind": "view", "zone": z.id, "cal": cal.id, "ns": cur, "auto_advance": step, "getter": name}
+            ctx.ev(); ctx.counters["zoned_views"] += 1; ctx.key(("view-auto", name, step))
+            try:
+                got = getattr(zc, name)()
+            except Exception as e:  # noqa: BLE001
+                ctx.exc(e); ctx.V(f"C19:zoned-clock-raised:{type(e).__name__}", f"ZonedClock.{name} raised {e!r}", case, repr(e)); break
+            k += 1
+            if got != proj(exp):
+                ctx.V(f"C19:zoned-clock-auto-advance:{name}", f"ZonedClock({z.id}).{name}() over a FakeClock auto-advancing by {step} ns returned {got!r}; the wrapped clock's reading #{k} ({cur}) rendered in the zone is {proj(exp)!r}", case)
+                break
+        fin = gen.inst_ns(fc.get_current_instant())
+        if fin != t0 + k * step:
+            ctx.V("C19:zoned-clock-reads-per-call", f"after {k} ZonedClock getter calls the wrapped clock (auto-advance {step} ns) stands at {fin}; one read per call gives {t0 + k * step}", {"kind": "view", "zone": z.id, "auto_advance": step}, fin, t0 + k * step)
     sc = SystemClock.instance
     for _ in range(2000 if ctx.tier == "quick" else 20000):
         a = time.time_ns(); v = gen.inst_ns(sc.get_current_instant()); b = time.time_ns()
